@@ -15,7 +15,7 @@ def gen_programs(ctx, n, multi=None, rich_ann=True, start=0):
     return out
 
 
-def compile_many(progs, extra=None, timeout=900):
+def compile_many(progs, extra=None, timeout=60):
     lines = []
     for p in progs:
         req = {"mods": p["mods"], "main": p["main"]}
@@ -30,6 +30,8 @@ def compile_many(progs, extra=None, timeout=900):
     for o in outs:
         if o is None:
             res.append({"status": "crash", "msg": "no answer"})
+        elif o == "SKIPPED":
+            res.append({"status": "skipped"})
         elif o.startswith("CRASH") or o.startswith("HANG"):
             res.append({"status": "crash", "msg": o})
         else:
